@@ -70,6 +70,8 @@ pub struct Opts {
     pub bulk_ops: bool,
     /// raise the frequency of savepoint operations (C07)
     pub savepoint_heavy: bool,
+    /// let step() make a panic unwind through a live write transaction now and then
+    pub panics: bool,
 }
 
 impl Default for Opts {
@@ -85,6 +87,7 @@ impl Default for Opts {
             max_value_pages: 3,
             bulk_ops: true,
             savepoint_heavy: false,
+            panics: false,
         }
     }
 }
@@ -173,6 +176,10 @@ pub struct World {
     pub track_pins: bool,
     /// violations that do not prevent the case from continuing (reported by the check at the end)
     pub soft: Vec<String>,
+    /// a panic unwound through a live write transaction in this session: redb skips the rollback
+    /// on purpose, the transaction's pages stay allocated until a repair (check_integrity or the
+    /// next open), so the leak clause of the accountant is suspended until then
+    pub leak_latched: bool,
 }
 
 pub fn key_u64(i: u64) -> Vec<u8> {
@@ -245,6 +252,9 @@ pub fn mm_value_bytes(j: u64, page: usize) -> Vec<u8> {
 macro_rules! tr {
     ($w:expr, $($arg:tt)*) => {
         if let Some(t) = $w.trace.as_mut() {
+            if std::env::var_os("RV_TRACE_STDERR").is_some() {
+                eprintln!("trace: {}", format!($($arg)*));
+            }
             t.push(format!($($arg)*));
         }
     };
@@ -369,6 +379,11 @@ pub fn list_psp(txn: &WriteTransaction) -> R<BTreeSet<u64>> {
 
 impl World {
     pub fn create(cfg: Cfg, opts: Opts, rng: Rng) -> R<World> {
+        let mut cfg = cfg;
+        if let Some(ps) = std::env::var("RV_FORCE_PAGE_SIZE").ok().and_then(|s| s.parse().ok()) {
+            // triage aid: replay the same history at another page size
+            cfg.page_size = ps;
+        }
         let be = MonBackend::new();
         let db = cfg
             .builder()
@@ -395,6 +410,7 @@ impl World {
             judge_compact_size: false,
             track_pins: false,
             soft: vec![],
+            leak_latched: false,
         };
         w.push_commit(true, 0, 0, "create");
         Ok(w)
@@ -885,7 +901,9 @@ impl World {
             }
         }
         if let Some(pick) = plan.psp_delete {
-            let ids: Vec<u64> = self.psp.keys().copied().collect();
+            // candidates: committed savepoints and the one created a moment ago in this transaction
+            let mut ids: Vec<u64> = self.psp.keys().copied().collect();
+            ids.extend(psp_created.iter().map(|(i, _)| *i));
             let (id, exists) = if !ids.is_empty() && pick % 4 != 0 {
                 (ids[(pick / 4) as usize % ids.len()], true)
             } else {
@@ -900,7 +918,12 @@ impl World {
                     );
                     tr!(self, "delete_persistent_savepoint {id} -> {b}");
                     if b {
-                        psp_deleted.push(id);
+                        if psp_created.iter().any(|(i, _)| *i == id) {
+                            psp_created.retain(|(i, _)| *i != id);
+                            self.bump("sp.persistent_created_and_deleted_in_one_txn");
+                        } else {
+                            psp_deleted.push(id);
+                        }
                         persistent_modified = true;
                         self.bump("sp.persistent_deleted");
                     }
@@ -1257,6 +1280,7 @@ impl World {
             .create_with_backend(self.be.clone())
             .map_err(se("reopen"))?;
         self.db = Some(db);
+        self.leak_latched = false;
         self.bump("db.reopen");
         self.verify_visible()?;
         let txn = self.db().begin_write().map_err(se("begin_write"))?;
@@ -1273,6 +1297,7 @@ impl World {
         self.readers.clear();
         self.esp.clear();
         self.db = None;
+        self.leak_latched = false;
         self.harvest();
         let hook = self.be.lock().sync_hook.clone();
         let be = MonBackend::from_image(img);
@@ -1320,17 +1345,53 @@ impl World {
 
     /// check_integrity on a healthy database: must be Ok(true) and change nothing.
     pub fn check_integrity(&mut self) -> R<()> {
+        // the state the call starts in is part of every verdict it produces
+        let ctx = if self.leak_latched {
+            format!(
+                " [caught-panic leak latched, {}, page size {}]",
+                if self.commits.last().map(|c| !c.durable).unwrap_or(false) {
+                    "pending non-durable commit"
+                } else {
+                    "no pending non-durable commit"
+                },
+                if self.cfg.page_size < 4096 { "< 4096" } else { ">= 4096" }
+            )
+        } else {
+            String::new()
+        };
+        match self.check_integrity_inner() {
+            Err(Fail::Oracle(m)) if !ctx.is_empty() => Err(Fail::Oracle(format!("check_integrity(){ctx}: {m}"))),
+            r => r,
+        }
+    }
+
+    fn check_integrity_inner(&mut self) -> R<()> {
         tr!(self, "check_integrity");
         self.readers.clear();
         self.esp.clear();
+        let latched = self.leak_latched;
         let db = self.db.as_mut().expect("database open");
-        match db.check_integrity() {
-            Ok(true) => {}
-            Ok(false) => {
+        let call = |db: &mut Database| -> R<bool> {
+            match crate::report::guarded(|| db.check_integrity()) {
+                Ok(Ok(b)) => Ok(b),
+                Ok(Err(e)) => Err(Fail::Storage(format!("check_integrity: {e}"))),
+                Err(p) => oracle(format!("check_integrity() panicked: {}", p.short())),
+            }
+        };
+        match call(db)? {
+            true => {}
+            false if latched => {
+                // the pages leaked by the caught panic were reclaimed: a repair, as documented
+                self.counts.entry("db.check_integrity_repaired_caught_panic_leak".into()).and_modify(|c| *c += 1).or_insert(1);
+                if !call(db)? {
+                    return oracle("check_integrity() returned Ok(false) twice in a row".into());
+                }
+            }
+            false => {
                 return oracle("check_integrity() on a database produced by a fault-free history returned Ok(false)".into());
             }
-            Err(e) => return Err(Fail::Storage(format!("check_integrity: {e}"))),
         }
+        self.leak_latched = false;
         self.mark_all_durable();
         self.bump("db.check_integrity");
         self.verify_visible()
@@ -1389,6 +1450,36 @@ impl World {
     }
 
     /// One random step of a history: a write transaction, or reader / savepoint / reopen activity.
+    /// A panic unwinds through a live write transaction and is caught by the application. redb
+    /// skips the rollback while unwinding (the pages leak for the rest of the session and
+    /// `needs_repair` is latched); nothing the transaction did may become visible.
+    pub fn panic_txn(&mut self) -> R<()> {
+        tr!(self, "panic inside a write transaction (caught)");
+        let n = self.rng.range(1, 12);
+        let big = self.rng.range(1, 3 * self.cfg.page_size as u64) as usize;
+        let name = Kind::A.name(0);
+        let db = self.db.as_ref().expect("database open");
+        let r = crate::report::guarded(|| -> Result<(), String> {
+            let txn = db.begin_write().map_err(|e| e.to_string())?;
+            {
+                let mut t = txn.open_table(def_a(&name)).map_err(|e| e.to_string())?;
+                for i in 0..n {
+                    t.insert(1_000_000 + i, vec![0xEE; big].as_slice()).map_err(|e| e.to_string())?;
+                }
+            }
+            panic!("rv: application panic while a write transaction is live");
+        });
+        match r {
+            Err(p) if p.message.contains("rv: application panic") => {}
+            Err(p) => return oracle(format!("panic inside the doomed transaction: {}", p.short())),
+            Ok(Err(e)) => return Err(Fail::Storage(format!("doomed transaction: {e}"))),
+            Ok(Ok(())) => unreachable!(),
+        }
+        self.leak_latched = true;
+        self.bump("txn.panic_unwound");
+        self.verify_visible()
+    }
+
     pub fn step(&mut self) -> R<()> {
         let roll = self.rng.below(100);
         match roll {
@@ -1400,6 +1491,7 @@ impl World {
             10..=15 => self.drop_random_reader(),
             16..=20 => self.drop_random_esp(),
             21..=23 => self.verify_readers()?,
+            24..=25 if self.opts.panics => self.panic_txn()?,
             _ => {
                 let plan = self.plan();
                 self.run_txn(&plan)?;
